@@ -164,7 +164,7 @@ PROPS = {
                      "the allocation model covers Hstartwrite of new elements, appending Hwrite on the last element of the file, in-place Hwrite, Hsync and close/reopen; every other allocation goes through HPgetdiskblock too but is not replayed on the model"],
     ),
     "C15": dict(
-        lean_props=["H4.Props.C15"],
+        lean_props=["H4.Props.C15", "H4.Props.C15Fn"],
         engines=[
             # one binary: cross-interface cases (T xapi ...: record codecs) + the real DFCIrle/DFCIunrle (T dfrle ...)
             E("xapi", "e_xapi.c", model="xapi", quick=dict(cases=660, chunk=33), thorough=dict(cases=8800, seeds=4, chunk=110)),
